@@ -174,20 +174,34 @@ class Harness:
                                   preexec_fn=pre)
         self.calls = 0
 
-    def cmd(self, *fields):
+    def cmd(self, *fields, timeout=20.0):
         line = "\t".join(str(f) for f in fields)
         assert "\n" not in line
         try:
             self.p.stdin.write(line + "\n")
             self.p.stdin.flush()
+            import select
+            r, _, _ = select.select([self.p.stdout], [], [], timeout)
+            if not r:
+                # the call did not return: a wedge. Kill and restart lazily.
+                self.p.kill()
+                self.p.wait()
+                return "abort\twedged (no answer within %.0fs)" % timeout
             resp = self.p.stdout.readline()
-        except BrokenPipeError:
+        except (BrokenPipeError, ValueError):
             resp = ""
         self.calls += 1
         if not resp:
-            rc = self.p.poll()
+            try:
+                rc = self.p.wait(timeout=5)
+            except Exception:
+                rc = self.p.poll()
             return f"abort\texit={rc}"
         return resp.rstrip("\n")
+
+    def restart(self):
+        self.close()
+        self.__init__(self.path)
 
     def alive(self):
         return self.p.poll() is None
@@ -218,7 +232,8 @@ Set Printing Depth 1000000.
 
 def run_coq_file(path, timeout=900, extra_requires=""):
     t0 = time.time()
-    rc, out = sh(["timeout", str(timeout), "coqc", "-noglob", "-Q", COQ, "Abasic", path], cwd=os.path.dirname(path))
+    rc, out = sh(["bash", "-c", 'ulimit -s unlimited 2>/dev/null || ulimit -s 1000000; exec timeout "$0" coqc -noglob -Q "$1" Abasic "$2"',
+                  str(timeout), COQ, path], cwd=os.path.dirname(path))
     return rc, out, time.time() - t0
 
 
